@@ -156,7 +156,7 @@ def generated(seed, idx):
         sc = c12.PROP.generate(derive(seed, "C10-C12"), sub, "quick")
         return fam, [{"programs": [{"kind": "snippet", "source": c12.render(sc["ir"])}], "tape": [], "faults": {}}]
     if fam == "C14":
-        sc = c14.PROP.generate(derive(seed, "C10-C14"), sub + 3, "quick")      # (indices 0-2 are C14's fixed host-side cases)
+        sc = c14.PROP.generate(derive(seed, "C10-C14"), sub + 5, "quick")      # (indices 0-4 are C14's fixed host-side cases)
         return fam, [{"programs": [{"kind": "snippet", "source": c14.render(sc["ir"])}], "tape": sc["tape"], "faults": sc["faults"],
                       "fs": c14.fs_of(sc["ir"])}]
     if fam == "C15":
